@@ -4,6 +4,7 @@ import FrappyProofs.Lemmas.WriteLoop
 import FrappyProofs.Lemmas.ConfigDsl
 import FrappyProofs.Lemmas.ConfigAttach
 import FrappyProofs.Lemmas.ConfigAttachClean
+import FrappyProofs.Lemmas.ConfigUnit
 import FrappyModel.Klass.ConfigDT
 import FrappyModel.Generated.C10
 /-
@@ -980,6 +981,312 @@ example : mergeB (· == ·)
     [⟨"eq0", [("a", "0.a"), ("b", "0.b")]⟩, ⟨"eq1", [("b", "1.b")]⟩, ⟨"eq2", [("c", "2.c"), ("b", "2.b")]⟩]
     (loadConfig [⟨"eq0", [("a", "0.a"), ("b", "0.b")]⟩, ⟨"eq1", [("b", "1.b")]⟩, ⟨"eq2", [("c", "2.c"), ("b", "2.b")]⟩])
     = true := by decide
+
+/-! ## the main unit: `$` in the units of ALL parameters shows the unit configured for `value` -/
+
+open Frappy.Lemmas.ConfigUnit in
+/-- the main unit the constructor takes from the instance is the one the configuration gives (`Spec.mainUnit`: the unit
+of `value` after ITS overrides) -/
+theorem main_unit_agrees (ops : Ops DT Val) (u : UnitOps DT) (c : ClassDesc DT Val) (cfg : Cfg Val) (j : Instance DT Val)
+    (wf : WellFormed c) (hv : ∀ pdv ∈ c.params, pdv.name = "value" → (startOf ops c cfg pdv).isSome = true)
+    (h : applyConfig ops c cfg = .ok j) : mainUnitOf u j.params = mainUnit ops u c cfg := by
+  have hnames := accepted_names ops c cfg j (accepted_of_ok ops c cfg j h)
+  have hnd : (j.params.map (·.name)).Nodup := by rw [hnames]; exact wf.paramNames
+  unfold mainUnit
+  cases hf : c.params.find? (fun pd => pd.name == "value") with
+  | none =>
+    have hnot : "value" ∉ j.params.map (·.name) := by
+      rw [hnames]
+      intro hm
+      obtain ⟨pd, hpd, hn⟩ := List.mem_map.1 hm
+      have := List.find?_eq_none.1 hf pd hpd
+      simp [hn] at this
+    simp [mainUnitOf, findInst_none "value" j.params hnot]
+  | some pdv =>
+    have hpdv : pdv ∈ c.params := List.mem_of_find?_eq_some hf
+    have hname : pdv.name = "value" := by
+      have := List.find?_some hf
+      simpa using this
+    have hsome := hv pdv hpdv hname
+    cases hs : startOf ops c cfg pdv with
+    | none => rw [hs] at hsome; cases hsome
+    | some sd =>
+      obtain ⟨dt0, dflt⟩ := sd
+      obtain ⟨p, hp, hpn, dt', hafter, hpdt, _, _⟩ := config_applied ops c cfg j wf h pdv dt0 dflt hpdv hs
+      have hfi := findInst_of_mem "value" j.params hnd p hp (by rw [hpn, hname])
+      simp [mainUnitOf, hfi, hpdt, hs, hafter]
+
+/-- "the described datainfo shows the overridden … unit", for EVERY parameter of an accepted configuration — scalar or
+structured, own datatype or derived limit: its datatype on the instance (what `describe` exports) is the datatype after
+its overrides with the main unit put in wherever a unit refers to it (`setMainUnit`, whatever the datatype's own `unit`
+says), the main unit being the unit of `value` after the overrides of `value`; without a main unit it is the datatype
+after the overrides.  (`hv`: the parameter called `value`, if there is one, has a datatype — checked by the driver on
+every class description.) -/
+theorem main_unit_applied (ops : Ops DT Val) (u : UnitOps DT) (c : ClassDesc DT Val) (cfg : Cfg Val) (i : Instance DT Val)
+    (wf : WellFormed c) (hv : ∀ pdv ∈ c.params, pdv.name = "value" → (startOf ops c cfg pdv).isSome = true)
+    (h : applyConfigU ops u c cfg = .ok i) (pd : ParamDesc DT Val) (dt0 : DT) (dflt : Option Val)
+    (hpd : pd ∈ c.params) (hs : startOf ops c cfg pd = some (dt0, dflt)) :
+    ∃ p ∈ i.params, p.name = pd.name ∧
+      ∃ dt', dtAfter ops dt0 ((cfgOf pd.name cfg).getD []) = some dt' ∧
+        p.dt = some (shownDT u (mainUnit ops u c cfg) dt') := by
+  unfold applyConfigU at h
+  cases hj : applyConfig ops c cfg with
+  | error es => rw [hj] at h; cases h
+  | ok j =>
+    rw [hj] at h
+    injection h with h
+    obtain ⟨p, hp, hpn, dt', hafter, hpdt, _, _⟩ := config_applied ops c cfg j wf hj pd dt0 dflt hpd hs
+    have hmu := main_unit_agrees ops u c cfg j wf hv hj
+    subst h
+    unfold mainUnitPass
+    rw [hmu]
+    cases hm : mainUnit ops u c cfg with
+    | none => exact ⟨p, hp, hpn, dt', hafter, by simpa [shownDT] using hpdt⟩
+    | some mu =>
+      refine ⟨substParam u mu p, List.mem_map_of_mem hp, hpn, dt', hafter, ?_⟩
+      simp [substParam, hpdt, shownDT]
+
+/-- the main-unit step changes nothing but datatypes: acceptance, start values, own properties and what is written are
+those of `applyConfig` (so every other theorem of this file speaks about `applyConfigU`, too) -/
+theorem main_unit_only_units (ops : Ops DT Val) (u : UnitOps DT) (c : ClassDesc DT Val) (cfg : Cfg Val) :
+    (∀ es, applyConfigU ops u c cfg = .error es ↔ applyConfig ops c cfg = .error es) ∧
+    (∀ i, applyConfigU ops u c cfg = .ok i → ∃ j, applyConfig ops c cfg = .ok j ∧ i.modProps = j.modProps ∧
+      i.writeDict = j.writeDict ∧
+      i.params.map (fun p => (p.name, p.own, p.value, p.default, p.notInit, p.given)) =
+        j.params.map (fun p => (p.name, p.own, p.value, p.default, p.notInit, p.given))) := by
+  unfold applyConfigU
+  cases hj : applyConfig ops c cfg with
+  | error es => exact ⟨fun es' => Iff.rfl, fun i h => (by cases h)⟩
+  | ok j =>
+    refine ⟨fun es' => ⟨fun h => (by cases h), fun h => (by cases h)⟩, fun i h => ?_⟩
+    injection h with h
+    subst h
+    refine ⟨j, rfl, ?_⟩
+    unfold mainUnitPass
+    cases mainUnitOf u j.params with
+    | none => exact ⟨rfl, rfl, rfl⟩
+    | some mu => exact ⟨rfl, rfl, by simp [List.map_map, Function.comp_def, substParam]⟩
+
+/-- the check the driver runs on every case implies the hypothesis `hv` of `main_unit_applied` -/
+theorem valueTypedB_sound (ops : Ops DT Val) (c : ClassDesc DT Val) (cfg : Cfg Val) (h : valueTypedB ops c cfg = true) :
+    ∀ pdv ∈ c.params, pdv.name = "value" → (startOf ops c cfg pdv).isSome = true := by
+  intro pdv hp hn
+  have := List.all_eq_true.1 h pdv hp
+  simpa [hn] using this
+
+/-- monitor soundness for the unit clause: if `appliedB` accepts the observation of a registered module, then every
+parameter which is described shows — up to the driver's equality on datatypes — exactly the datatype `main_unit_applied`
+proves for the model: the datatype after its overrides with the main unit of the configuration put in -/
+theorem appliedB_unit_sound (ops : Ops DT Val) (u : UnitOps DT) (g : Glue DT Val) (c : ClassDesc DT Val) (cfg : Cfg Val)
+    (o : ObsModule DT Val) (h : appliedB ops u g c cfg o = true) (hreg : o.registered = true)
+    (pd : ParamDesc DT Val) (hpd : pd ∈ c.params) (dt0 : DT) (dflt : Option Val)
+    (hs : startOf ops c cfg pd = some (dt0, dflt)) :
+    ∃ op, findObs pd.name o.params = some op ∧
+      ∃ dt', dtAfter ops dt0 ((cfgOf pd.name cfg).getD []) = some dt' ∧
+        (op.described.isSome = true →
+          optB g.beqDT op.datainfo (some (shownDT u (mainUnit ops u c cfg) dt')) = true) := by
+  unfold appliedB at h
+  simp only [hreg, Bool.not_true, Bool.false_or, Bool.and_eq_true] at h
+  have hp := List.all_eq_true.1 h.2 pd hpd
+  simp only [hs] at hp
+  cases hf : findObs pd.name o.params with
+  | none => simp [hf] at hp
+  | some op =>
+    simp only [hf] at hp
+    refine ⟨op, rfl, ?_⟩
+    unfold paramAppliedB at hp
+    cases hd : dtAfter ops dt0 ((cfgOf pd.name cfg).getD []) with
+    | none => simp [hd] at hp
+    | some dt' =>
+      simp only [hd, Bool.and_eq_true] at hp
+      refine ⟨dt', rfl, ?_⟩
+      intro hdesc
+      have h4 := hp.1.2
+      cases hdd : op.described with
+      | none => rw [hdd] at hdesc; cases hdesc
+      | some n => simpa [hdd] using h4
+
+/-! ## which configuration file is applied -/
+
+open Frappy.Lemmas.ConfigUnit in
+/-- `to_config_path` searches directory by directory: the file it returns is the one of the FIRST configuration
+directory which has the name at all (an earlier directory shadows the later ones, whatever the suffixes), under the
+preferred suffix of that directory; a reference with a path separator is that file; not found iff no directory has it -/
+theorem cfg_lookup_dir_major (isFile : String → String → Bool) (dirs : List String) (r : CfgRef) :
+    toConfigPath isFile dirs r = fileFor isFile dirs r := by
+  cases r with
+  | path p => rfl
+  | name n =>
+    simp only [toConfigPath, fileFor]
+    induction dirs with
+    | nil => rfl
+    | cons d ds ih =>
+      rw [candidates_cons, List.find?_append, find_in_dir]
+      simp only [firstDirWith, List.find?_cons]
+      cases hs : cfgSuffixes.find? (fun s => isFile d (n ++ s)) with
+      | some s =>
+        have hany : (cfgSuffixes.any fun s => isFile d (n ++ s)) = true :=
+          List.any_eq_true.2 ⟨s, List.mem_of_find?_eq_some hs, List.find?_some (p := fun s => isFile d (n ++ s)) hs⟩
+        simp [hany, hs]
+      | none =>
+        have hany : (cfgSuffixes.any fun s => isFile d (n ++ s)) = false := by
+          rw [Bool.eq_false_iff]
+          intro ht
+          obtain ⟨s, hsm, hst⟩ := List.any_eq_true.1 ht
+          have := List.find?_eq_none.1 hs s hsm
+          exact this hst
+        simpa [hany, firstDirWith] using ih
+
+/-- a file in an earlier directory shadows every file of that name in later directories: if no directory before `d` has
+the name under any suffix and `d` has it under some, the file applied is in `d` -/
+theorem earlier_dir_shadows (isFile : String → String → Bool) (pre post : List String) (d n s : String)
+    (hpre : ∀ d' ∈ pre, ∀ s' ∈ cfgSuffixes, isFile d' (n ++ s') = false)
+    (hs : s ∈ cfgSuffixes) (hd : isFile d (n ++ s) = true) :
+    ∃ f, toConfigPath isFile (pre ++ d :: post) (.name n) = some (d, f) ∧ isFile d f = true := by
+  rw [cfg_lookup_dir_major]
+  have hfd : firstDirWith isFile (pre ++ d :: post) n = some d := by
+    unfold firstDirWith
+    rw [List.find?_append]
+    have h1 : pre.find? (fun d => cfgSuffixes.any fun s => isFile d (n ++ s)) = none := by
+      rw [List.find?_eq_none]
+      intro d' hd' ht
+      obtain ⟨s', hs', ht'⟩ := List.any_eq_true.1 ht
+      rw [hpre d' hd' s' hs'] at ht'
+      cases ht'
+    have h2 : (cfgSuffixes.any fun s => isFile d (n ++ s)) = true := List.any_eq_true.2 ⟨s, hs, hd⟩
+    simp [h1, List.find?_cons, h2]
+  simp only [fileFor, hfd]
+  cases hf : cfgSuffixes.find? (fun s => isFile d (n ++ s)) with
+  | none => exact absurd hd (List.find?_eq_none.1 hf s hs)
+  | some s0 => exact ⟨n ++ s0, rfl, List.find?_some (p := fun s => isFile d (n ++ s)) hf⟩
+
+/-- `load_config` parses exactly the files the references stand for, in order, or nothing when one is not found — the
+monitor `lookupB` accepts what the model does -/
+theorem lookup_judged (isFile : String → String → Bool) (dirs : List String) (refs : List CfgRef) :
+    lookupB isFile dirs refs (resolveAll isFile dirs refs) = true := by
+  induction refs with
+  | nil => simp [resolveAll, lookupB]
+  | cons r rest ih =>
+    simp only [resolveAll]
+    rw [cfg_lookup_dir_major]
+    cases hr : fileFor isFile dirs r with
+    | none => simp [lookupB, hr]
+    | some f =>
+      cases hrest : resolveAll isFile dirs rest with
+      | none =>
+        rw [hrest] at ih
+        simp only [lookupB] at ih
+        simp [lookupB, ih]
+      | some fs =>
+        rw [hrest] at ih
+        simp only [lookupB] at ih ⊢
+        simpa [hr] using ih
+
+/-! ### non-vacuity: a toy datatype with a unit -/
+
+def toyOpsU : Ops ((Int × Int) × String) Int :=
+  { convert := fun dt v => toyOps.convert dt.1 v, validate := fun dt v => toyOps.validate dt.1 v,
+    setProp := fun dt k v => if k = "unit" then .ok (dt.1, if v = 1 then "K" else "mbar") else
+      match toyOps.setProp dt.1 k v with
+      | .ok d => .ok (d, dt.2)
+      | .unknown => .unknown
+      | .bad => .bad,
+    checkDT := fun dt => toyOps.checkDT dt.1, dtDefault := fun dt => toyOps.dtDefault dt.1,
+    ownProp := toyOps.ownProp, cmdProp := toyOps.cmdProp, cmdRaises := toyOps.cmdRaises,
+    limitDT := fun _ dt => dt, limitDefault := fun _ dt => dt.1.2 }
+
+/-- `$` alone refers to the main unit -/
+def toyUnits : UnitOps ((Int × Int) × String) := ⟨(·.2), fun mu dt => (dt.1, if dt.2 = "$" then mu else dt.2)⟩
+
+def exValue : ParamDesc ((Int × Int) × String) Int :=
+  { name := "value", dt := some ((0, 10), "mbar"), limit := none, base := "", value := none, default := some 1,
+    needscfg := false, hasWrite := false, own := [] }
+
+/-- `value` in mbar, `pa` in `$`, and `pa_max` (a derived limit: a copy of the datatype of `pa`) -/
+def exClassU : ClassDesc ((Int × Int) × String) Int :=
+  { modProps := [⟨"description", some, true, none⟩],
+    params := [exValue, { exValue with name := "pa", dt := some ((0, 10), "$"), hasWrite := true },
+               { exValue with name := "pa_max", dt := none, limit := some .max, base := "pa", default := none }],
+    otherNames := [] }
+
+theorem exClassU_wf : WellFormed exClassU := by
+  refine ⟨by decide, by decide, ?_⟩
+  intro pd hpd hl b hb hn
+  simp only [exClassU, List.mem_cons, List.not_mem_nil, or_false] at hpd hb
+  rcases hpd with rfl | rfl | rfl
+  · cases hl
+  · cases hl
+  · rcases hb with rfl | rfl | rfl
+    · rfl
+    · rfl
+    · simp [exValue] at hn
+
+/-- the cfg overrides the unit of `value` (mbar → K) and a limit of `pa`: `pa` and `pa_max` show K, not `$`, not mbar -/
+example : mainUnit toyOpsU toyUnits exClassU [("description", .prop (.bare 7)), ("value", .acc [("unit", 1)])] = some "K" ∧
+    (match applyConfigU toyOpsU toyUnits exClassU [("description", .prop (.bare 7)), ("value", .acc [("unit", 1)]),
+        ("pa", .acc [("max", 8)])] with
+     | .ok i => i.params.map (fun p => (p.name, p.dt)) ==
+         [("value", some ((0, 10), "K")), ("pa", some ((0, 8), "K")), ("pa_max", some ((0, 8), "K"))]
+     | .error _ => false) = true := by
+  constructor <;> decide +kernel
+
+/-- the hypotheses of `main_unit_applied` are satisfiable -/
+example : ∃ i, applyConfigU toyOpsU toyUnits exClassU [("description", .prop (.bare 7)), ("value", .acc [("unit", 1)])] = .ok i ∧
+    ∀ pdv ∈ exClassU.params, pdv.name = "value" →
+      (startOf toyOpsU exClassU [("description", .prop (.bare 7)), ("value", .acc [("unit", 1)])] pdv).isSome = true := by
+  refine ⟨_, rfl, ?_⟩
+  intro pdv hp hn
+  simp only [exClassU, List.mem_cons, List.not_mem_nil, or_false] at hp
+  rcases hp with rfl | rfl | rfl
+  · rfl
+  · simp [exValue] at hn
+  · simp [exValue] at hn
+
+def toyGlue : Glue ((Int × Int) × String) Int := ⟨(· == ·), (· == ·), fun n _ => some n⟩
+
+def exObsU (paMaxUnit : String) : ObsModule ((Int × Int) × String) Int :=
+  { registered := true, errors := [], modProps := [], events := [], driver := [],
+    params := [⟨"value", some 1, some ((0, 10), "K"), some "value", ["value"], [], []⟩,
+               ⟨"pa", some 1, some ((0, 8), "K"), some "pa", ["pa"], [], []⟩,
+               ⟨"pa_max", some 8, some ((0, 8), paMaxUnit), some "pa_max", ["pa_max"], [], []⟩] }
+
+/-- the monitor accepts the observation in which every `$` shows the configured unit K, and refuses the one in which the
+derived limit still shows `$` (what the seeded change C10-m11 produces for structured datatypes) -/
+example :
+    let cfg : Cfg Int := [("description", .prop (.bare 7)), ("value", .acc [("unit", 1)]), ("pa", .acc [("max", 8)])]
+    appliedB toyOpsU toyUnits toyGlue exClassU cfg (exObsU "K") = true ∧
+    appliedB toyOpsU toyUnits toyGlue exClassU cfg (exObsU "$") = false := by
+  decide +kernel
+
+/-- site/cryo.py shadows general/cryo_cfg.py; within one directory `_cfg.py` is preferred; a missing name is not found -/
+example :
+    let isFile := fun d f => [("site", "cryo.py"), ("general", "cryo_cfg.py"), ("general", "cryo.py"), ("general", "x")].contains (d, f)
+    toConfigPath isFile ["site", "general"] (.name "cryo") = some ("site", "cryo.py") ∧
+    toConfigPath isFile ["general", "site"] (.name "cryo") = some ("general", "cryo_cfg.py") ∧
+    toConfigPath isFile ["site", "general"] (.name "x") = some ("general", "x") ∧
+    toConfigPath isFile ["site", "general"] (.name "nosuch") = none ∧
+    lookupB isFile ["site", "general"] [.name "cryo"] (some [("general", "cryo_cfg.py")]) = false ∧
+    resolveAll isFile ["site", "general"] [.name "cryo", .name "x"] = some [("site", "cryo.py"), ("general", "x")] := by
+  decide +kernel
+
+/-! ## the driver's instance of the unit oracles satisfies the law the main-unit pass assumes -/
+
+/-- `applyConfigU` runs the main-unit step after the final checks, the constructor before them: for the driver's
+datatypes the outcome of `checkProperties` does not depend on units -/
+theorem checkDT_setMainUnit (mu : String) : ∀ dt : ConfigDT.CDT,
+    ConfigDT.checkDT (ConfigDT.setMainUnit mu dt) = ConfigDT.checkDT dt
+  | .double _ _ _ => by simp [ConfigDT.setMainUnit, ConfigDT.checkDT]
+  | .int _ _ => by simp [ConfigDT.setMainUnit]
+  | .string _ _ _ => by simp [ConfigDT.setMainUnit]
+  | .bool => by simp [ConfigDT.setMainUnit]
+  | .enum _ => by simp [ConfigDT.setMainUnit]
+  | .array lo hi m => by simp [ConfigDT.setMainUnit, ConfigDT.checkDT, checkDT_setMainUnit mu m]
+  | .tuple _ => by simp [ConfigDT.setMainUnit, ConfigDT.checkDT]
+
+/-- the unit an array shows is the unit of its members, a tuple has none: a `$` inside a tuple is invisible to
+`datatype.unit` and is still replaced -/
+example : ConfigDT.unitOf (.tuple [.double none none "$", .double none none "s"]) = "" ∧
+    ConfigDT.unitOf (.array 0 3 (.double none none "K")) = "K" := ⟨rfl, rfl⟩
 
 /-! ## table facts (re-checked against the repository on every run) -/
 
